@@ -239,6 +239,7 @@ int main(int argc, char** argv) {
     std::vector<unsigned> cn = T ? std::vector<unsigned>{32, 48, 64, 128} : std::vector<unsigned>{32, 64};
     if (R.warm) { for (unsigned n : cn) for (unsigned pad : {4u, 8u}) { Rig r(Cfg{n, 1, n * pad, 0, {0}}); r.f->wakePotential(); } return 0; }
     std::vector<size_t> ns = T ? std::vector<size_t>{0, 1, 2, 3, 4, 5, 8, 9, 16, 17, 32, 33, 64, 65, 128, 129, 256} : std::vector<size_t>{0, 1, 2, 3, 4, 5, 8, 9, 16, 17, 32, 33};
+    if (D) { ns.push_back(257); ns.push_back(512); ns.push_back(1000); ns.push_back(1025); }
     part_models(ns);
     part_plates(T ? std::vector<size_t>{16, 17, 64, 65, 128} : std::vector<size_t>{16, 33});
     part_factory(T ? std::vector<size_t>{4, 9, 32, 33, 64} : std::vector<size_t>{4, 9, 32}, zfile);
